@@ -153,8 +153,8 @@ def run_harness(cases, timeout=120, shards=NPROC):
         except subprocess.TimeoutExpired:
             p.kill(); so, _ = p.communicate(); st = 'hang'
         res = {}
-        for l in so.decode('utf8', 'replace').splitlines():
-            try: r = json.loads(l)
+        for l in so.split(b'\n'):        # not splitlines(): messages may contain U+0085 / U+2028
+            try: r = json.loads(l.decode('utf8', 'replace'))
             except Exception: continue
             r['stdout'] = bytes.fromhex(r['stdout']); r['stderr'] = bytes.fromhex(r['stderr'])
             res[r['id']] = r
@@ -173,18 +173,29 @@ def run_harness(cases, timeout=120, shards=NPROC):
         res, st = results[i]
         out.update(res)
         missing = [c for c in g if c['id'] not in res]
-        if missing:
-            # re-run the missing cases one at a time
-            for c in missing:
-                p, d = launch([c], 1000 + i)
-                r1, st1 = collect(p, [c], d, 20)
-                if c['id'] in r1: out[c['id']] = r1[c['id']]
-                else:
-                    out[c['id']] = {'id': c['id'], 'result': 'hang' if st1 == 'hang' else 'abort', 'msg': str(st1),
-                                    'stdout': b'', 'stderr': b'', 'pulled': 0, 'stdin_opened': 0, 'budget_hit': False}
+        rounds = 0
+        while missing and rounds < 6:
+            # the harness works through its cases in order: the first one without a result is the suspect
+            rounds += 1
+            c = missing[0]
+            p, d = launch([c], 1000 + i)
+            r1, st1 = collect(p, [c], d, 8)
+            if c['id'] in r1: out[c['id']] = r1[c['id']]
+            else:
+                out[c['id']] = {'id': c['id'], 'result': 'hang' if st1 == 'hang' else 'abort', 'msg': str(st1),
+                                'stdout': b'', 'stderr': b'', 'pulled': 0, 'stdin_opened': 0, 'budget_hit': False}
+            rest = missing[1:]
+            if rest:
+                p, d = launch(rest, 2000 + i)
+                r2, st2 = collect(p, rest, d, max(20, timeout // 4))
+                out.update(r2)
+            missing = [c for c in rest if c['id'] not in out]
+        for c in missing:      # not run: earlier cases of the shard kept hanging
+            out[c['id']] = {'id': c['id'], 'result': 'not-run', 'msg': 'shard abandoned after repeated hangs', 'stdout': b'', 'stderr': b'',
+                            'pulled': 0, 'stdin_opened': 0, 'budget_hit': False}
     return out
 
-def run_model(cases, timeout=300, shards=NPROC):
+def run_model(cases, timeout=120, shards=NPROC):
     out = {}
     groups = _shards(cases, shards)
     procs = []
